@@ -25,7 +25,11 @@ RULE = ("Each case = a generated text (words from several scripts, mixed case, a
         "positions never decrease in order of appearance and, for offset-preserving analyzers, text[startchar:endchar] "
         "re-analysed alone yields the token; (5) highlights under every fragmenter and a sentinel formatter (and the "
         "shipped Html/Uppercase/Null formatters through their inverse): each fragment, stripped of markup, is a substring "
-        "of the text and every marked span analyses to a matched query term. Non-trivial = >=3 tokens of which >=1 was "
+        "of the text and every marked span analyses to a matched query term; the query also names, as first or last "
+        "clause, a word of the text in ANOTHER field (where a tagged document carries it), which must not be marked, and "
+        "half of the searches do not record matched terms (the highlighter then works from the query's terms and "
+        "re-tokenises); (6) DelimitedAttributeFilter offsets cover the word without its ^attribute tail even after a "
+        "length-changing filter. Non-trivial = >=3 tokens of which >=1 was "
         "altered by a filter; distinct by SHA-1 of (analyzer, field type, text).")
 ASSUMPTIONS = [
     "offset clause applies to analyzers whose tokens are contiguous slices of the source text (not to n-gram, shingle, "
@@ -35,7 +39,7 @@ ASSUMPTIONS = [
 
 OPEN, CLOSE, BETWEEN = "\ue000", "\ue001", "\ue002"
 
-WORDS = ["PowerShot^2.5", "helloworld", "foobar", "/usr/local/Lib", "a/b/c", "www.example.org/x_y?q=1&r=2", "ham^x",
+WORDS = ["stra\u00dfe^2", "gro\u00df^1.5", "PowerShot^2.5", "helloworld", "foobar", "/usr/local/Lib", "a/b/c", "www.example.org/x_y?q=1&r=2", "ham^x",
          "Rendering", "shading", "the", "The", "and", "of", "cafés", "naïve", "Ünïcode", "straße", "москва", "Привет",
          "中文字", "日本語", "hello", "world", "worlds", "running", "ran", "x", "I", "a", "2024", "3.14", "v2.0", "foo_bar",
          "Wi-Fi", "PowerShot", "e-mail", "user@example.com", "http://example.com/a?b=c", "AT&T", "O'Neil", "don't",
@@ -92,6 +96,8 @@ ANALYZERS = {
     "url": lambda: analysis.RegexTokenizer(analysis.filters.url_pattern) | analysis.LowercaseFilter(),
     "delimited": lambda: analysis.RegexTokenizer(r"\S+") | analysis.DelimitedAttributeFilter(delimiter="^", attribute="boost")
     | analysis.LowercaseFilter(),
+    "delimited_folded": lambda: analysis.RegexTokenizer(r"\S+") | analysis.SubstitutionFilter(u"\u00df", "ss")
+    | analysis.DelimitedAttributeFilter(delimiter="^", attribute="boost") | analysis.LowercaseFilter(),
     "stop_norenumber": lambda: analysis.RegexTokenizer() | analysis.LowercaseFilter() | analysis.StopFilter(renumber=False),
     "strip": lambda: analysis.RegexTokenizer(r"[^,]+") | analysis.StripFilter() | analysis.LowercaseFilter(),
 }
@@ -107,7 +113,7 @@ EXACT = {"simple", "standard", "standard_nostop", "keyword", "id", "id_lower", "
          "charset_tok", "url", "stop_norenumber"}
 # StripFilter changes the token text but (documentedly) not its offsets
 STRIPPING = {"strip", "keyword_commas", "comma"}
-SYNTHESISING = NGRAMS | {"tee", "compound", "compound_nokeep", "path", "delimited", "biword", "shingle", "metaphone", "intraword_merge", "intraword_multi"}
+SYNTHESISING = NGRAMS | {"tee", "compound", "compound_nokeep", "path", "delimited", "delimited_folded", "biword", "shingle", "metaphone", "intraword_merge", "intraword_multi"}
 
 
 def strategy(tier):
@@ -116,7 +122,7 @@ def strategy(tier):
         # every analyzer, with extra weight on the ones whose index- and query-time chains differ or that synthesise tokens
         "analyzer": st.one_of(st.sampled_from(sorted(ANALYZERS)), st.sampled_from(sorted(ANALYZERS)),
                               st.sampled_from(["intraword_multi", "intraword_multi", "intraword_merge", "fancy", "ngramwords",
-                                               "charset", "stemming"])),
+                                               "charset", "stemming", "delimited_folded", "delimited"])),
         "ftype": st.sampled_from(["text", "text", "text", "text_chars", "text_chars", "keyword", "id", "ngram_field",
                                   "ngramwords_field"]),
         "fragmenter": st.sampled_from(["context", "sentence", "whole", "pinpoint"]),
@@ -202,7 +208,7 @@ def run(case, out):
     try:
         itoks = toks(ana, text, "index")
     except Exception as e:
-        if name == "delimited" and isinstance(e, ValueError):
+        if name in ("delimited", "delimited_folded") and isinstance(e, ValueError):
             # text after the delimiter is by contract the attribute value: not a float -> invalid input
             out.exclude("invalid_delimited_attribute")
             return
@@ -217,6 +223,11 @@ def run(case, out):
     w.add_document(k=u"decoy1", f=u"zzqx decoy document")
     w.add_document(k=u"target", f=text)
     w.add_document(k=u"decoy2", f=u"another unrelated zzqy")
+    # a word of the target text that is, as a term, only searched for in the OTHER field (see the highlight clause)
+    all_terms = [t for t in sorted(set(t[0] for t in itoks)) if t]
+    other_word = all_terms[3] if len(all_terms) > 3 else None
+    if other_word is not None:
+        w.add_document(k=other_word, f=u"zzqw tagged")
     w.commit()
     positional = ftype in ("text", "text_chars")
     with ix.searcher() as s:
@@ -246,7 +257,10 @@ def run(case, out):
             # analyzers whose tokenizer keeps whole whitespace-separated words: the word as the user types it
             # (Wi-Fi, PowerShot, SD-500-42) must find the document through the parser, whose query-mode analysis may
             # split it differently from the index-mode one (MultiFilter)
-            for piece in text.split()[:6]:
+            for piece in text.split()[:8]:
+                # (punctuation hanging on the word is a delimiter for IntraWordFilter: the user types the bare word)
+                if name != "substitution":
+                    piece = piece.strip(u".,;:!?()'-")
                 if not re.match(r"^[A-Za-z0-9][A-Za-z0-9_-]*[A-Za-z0-9]$", piece) or piece.upper() in (
                         "AND", "OR", "NOT", "TO", "ANDNOT", "ANDMAYBE", "REQUIRE"):
                     continue
@@ -258,6 +272,8 @@ def run(case, out):
                              {"text": text, "word": piece, "parsed": repr(pq)[:200]})
                     return
                 out.label("parsed_intraword_word")
+                if re.search(r"[-_]|[a-z][A-Z]|[A-Za-z][0-9]|[0-9][A-Za-z]", piece):
+                    out.label("parsed_intraword_word_with_parts")
         for piece in re.findall(r"\w+", text)[:6]:
             if piece.upper() in ("AND", "OR", "NOT", "TO", "ANDNOT", "ANDMAYBE", "REQUIRE"):
                 continue
@@ -347,7 +363,12 @@ def run(case, out):
                 if sc is None or ec is None:
                     continue
                 src = text[sc:ec]
-                again = [x[0] for x in toks(ana, src, "index", removestops=False)]
+                try:
+                    again = [x[0] for x in toks(ana, src, "index", removestops=False)]
+                except ValueError as e:
+                    # the whole text was analysable, so a slice that is not (a delimited attribute cut in two) is
+                    # not the source text of a token
+                    again = ["<%s>" % type(e).__name__]
                 if t not in again:
                     out.fail("c17.offsets_do_not_delimit_token:%s" % name,
                              {"text": text, "token": t, "slice": src, "slice_tokens": again[:5], "offsets": [sc, ec]})
@@ -367,11 +388,31 @@ def run(case, out):
                         out.fail("c17.offsets_wider_than_token:%s" % name,
                                  {"text": text, "token": t, "slice": src, "droppable_end": "non-word character", "offsets": [sc, ec]})
                         return
+        if name in ("delimited", "delimited_folded"):
+            # the offsets cover the word without its "^attribute" tail (so that highlighting excludes it), however
+            # the filters before the DelimitedAttributeFilter changed the word's length
+            for t, pos, sc, ec in itoks:
+                if sc is None or ec is None:
+                    continue
+                word = re.match(r"\S*", text[sc:]).group(0)
+                if (sc > 0 and not text[sc - 1].isspace()) or text[sc:ec] != word.split("^")[0]:
+                    out.fail("c17.offsets_do_not_delimit_token:%s" % name,
+                             {"text": text, "token": t, "slice": text[sc:ec], "word": word, "offsets": [sc, ec]})
+                    return
         # (5) highlights
         if name not in NGRAMS | {"metaphone", "shingle", "biword"}:
             target_terms = [t for t in sorted(set(t[0] for t in itoks)) if t][:3]
-            q = query.Or([query.Term("f", t) for t in target_terms])
-            r = s.search(q, limit=None, terms=True)
+            # the query also names, in ANOTHER field, a word that occurs in this field's text but is not searched
+            # for here: it must not be highlighted in this field.  Half of the cases search without recording the
+            # matched terms (the highlighter then works from the query's terms)
+            clauses = [query.Term("f", t) for t in target_terms]
+            if other_word is not None:
+                # first or last clause: Query.existing_terms() treats the leaves in order
+                clauses.insert(0 if (len(text) // 2) % 2 == 0 else len(clauses), query.Term("k", other_word))
+            q = query.Or(clauses)
+            record_terms = (len(text) % 2 == 0)
+            r = s.search(q, limit=None, terms=record_terms)
+            out.label("highlight_terms_recorded" if record_terms else "highlight_from_query_terms")
             frag = {"context": highlight.ContextFragmenter(maxchars=40, surround=10),
                     "sentence": highlight.SentenceFragmenter(maxchars=60),
                     "whole": highlight.WholeFragmenter(),
@@ -397,7 +438,10 @@ def run(case, out):
                         return
                     for m in re.finditer(OPEN + "(.*?)" + CLOSE, fragment, re.S):
                         marked = m.group(1)
-                        mt = set(x[0] for x in toks(ana, marked, "index", removestops=False))
+                        try:
+                            mt = set(x[0] for x in toks(ana, marked, "index", removestops=False))
+                        except ValueError:
+                            mt = set()   # half a delimited attribute: not the text of any token
                         if not (mt & set(target_terms)):
                             out.fail("c17.highlight_marks_non_matching_text:%s" % name,
                                      {"text": text, "marked": marked, "marked_tokens": sorted(mt)[:5], "terms": target_terms})
